@@ -110,7 +110,8 @@ def expect(chk, rule, construct, av, loc=None, atoms=(R, DT), **exp):
     # a value whose structure the engine lost (unknown kind, an array of unknown shape) is *imprecisely known*: what is not derived for it is
     # not a fact about the code (joins of differently spelled paths, fast paths with fall-backs, buffers filled piecewise); only a definite
     # contradicting component (another length, another kind, another degree ...) refutes
-    ind = av.indef or av.kind == K_TOP or (av.kind == K_ARRAY and (av.shape is None or any(d_ is None for d_ in av.shape)))
+    ind = av.indef or av.kind == K_TOP or (av.kind == K_ARRAY and (av.shape is None or any(d_ is None for d_ in av.shape))) or \
+        "alloc:empty-written" in av.tags       # (derived through an uninitialised buffer filled piece by piece: one abstract element summarises it)
     for key, want in exp.items():
         if key == "length":
             w = LinExpr(want)
@@ -145,7 +146,9 @@ def expect(chk, rule, construct, av, loc=None, atoms=(R, DT), **exp):
                   "nonpos": av.sign in (S_ZERO, S_NEG, S_NONPOS)}[want]
             ob("sign", want, ok, av.sign, indef=ind)
         elif key == "mono":
-            ob("mono", "nondecreasing along axis %s" % want, want in av.mono, "axes %s" % sorted(av.mono), indef=ind)
+            # (the order lattice is {nondecreasing, unknown}: "not derived" is never a derived decrease -- a cumulative measure that loses
+            # its monotonicity loses a definite component as well: the sign of its increments, its parity, its cumulative tag)
+            ob("mono", "nondecreasing along axis %s" % want, want in av.mono, "axes %s" % sorted(av.mono), indef=True)
         elif key == "f0":
             ob("first", "first element exactly zero", bool(av.f0), "f0=%s" % av.f0, indef=ind)
         elif key == "tags_has":
@@ -396,6 +399,8 @@ def snapshot_attrs(chk):
     for cn in ("eqsig.single.Signal", "eqsig.single.AccSignal"):
         ci = P.cls(cn)
         m = extract_model(P, ci, chk)
+        if not m.flags:
+            _SNAP[("located", id(P))] = False      # no validity flag found: the cache protocol is of a design the model does not know
         managed = set(m.flags) | set(m.memo) | {"_values", "_npts", "_dt"}
         for info in m.flags.values():
             managed |= info["storage"]
@@ -443,6 +448,9 @@ def only_managed_reads(chk, rule, run, construct):
            derived=("reads %s (written by %s; nothing invalidates it)" % (names, sorted({w for a in names for w in snap.get(a, ["no constructor"])})))
            if bad else "%d attribute reads, all managed" % len(reads),
            loc=bad[0].loc if bad else run.fi.loc(), stmt=bad[0].stmt if bad else None,
+           # which attributes are lazily kept *and invalidated* is read off the validity flags; when no flag is found at all (the protocol
+           # was redesigned: counters, stamps ...) an attribute cannot be called unmanaged
+           inconclusive=bool(bad) and _SNAP.get(("located", id(chk.P))) is False and not any(e.via == "missing" for e in bad),
            detail="after the record is modified the result is still located on the old series" if bad else None)
 
 
